@@ -1,5 +1,6 @@
 """Symbolic executor, part 1: outcomes, statements, loops, try/except (DESIGN 2.4)."""
 import ast
+import time
 import z3
 from .sorts import *      # noqa
 from . import types as Ty
@@ -189,6 +190,9 @@ class ExecCore(object):
                         outs.append(o)
             if len(nxt) > 1:
                 nxt = [m for m, _ in merge_states([(c, None) for c in nxt])]
+                from .state import NO_MERGE
+                if NO_MERGE[0] and (len(nxt) > 192 or (NO_MERGE[1:] and time.time() > NO_MERGE[1])):
+                    raise Unsupported('path budget of the path-by-path exploration exceeded')
             cur = nxt
             if not cur:
                 break
